@@ -1,6 +1,7 @@
 package main
 
 import (
+	"math/big"
 	"encoding/json"
 
 	"github.com/cockroachdb/apd/v3"
@@ -119,6 +120,19 @@ func init() {
 		for _, x := range vals {
 			for _, y := range vals {
 				g.emit(mkO(x, y), "pairs")
+			}
+		}
+		// every decimal-digit boundary up to 10^420 (1396 bits), written out in full, against the same power of ten
+		// written with an exponent: digit-count estimates from the bit length are tightest exactly there
+		for k := 1; k <= 420; k++ {
+			pw := new(big.Int).Exp(big.NewInt(10), big.NewInt(int64(k)), nil)
+			for dl := int64(-1); dl <= 1; dl++ {
+				x := finDec(k%2 == 0, new(big.Int).Add(pw, big.NewInt(dl)), 0)
+				y := finDec(k%2 == 0, big.NewInt(1), k)
+				g.emit(mkO(x, y), "pow10")
+				if k%7 == 0 {
+					g.emit(mkO(y, x), "pow10")
+				}
 			}
 		}
 		n := g.pick(60000, 1500000)
